@@ -197,11 +197,13 @@ GinvQ(X, a, l) == LET M == CGram(X) IN (Abs(AdjE(M, a, l)) * Len(X) * 1000) \div
 \* the integer arithmetic of the accuracy model stays inside 31 bits
 SolveInRange(X, Y, off, W, Yh, R, tt, f32) ==
   LET M == CGram(X) IN
+  /\ Len(M) <= 3
+  /\ \A a \in 1..Len(M) : \A l \in 1..Len(M) : Abs(M[a][l]) <= (IF Len(M) = 3 THEN 700 ELSE 46000)   \* Det below cannot overflow
   /\ Abs(Det(M)) > 0 /\ Abs(Det(M)) < 200000000
-  /\ \A a \in 1..Len(M) : \A l \in 1..Len(M) : Abs(AdjE(M, a, l)) <= 400000
+  /\ \A a \in 1..Len(M) : \A l \in 1..Len(M) : Abs(AdjE(M, a, l)) <= 400000 /\ Abs(AdjE(M, a, l)) * Len(X) <= 2000000
   /\ \A a \in 1..Len(M) : \A l \in 1..Len(M) : GinvQ(X, a, l) <= 20000000
   /\ \A l \in 1..Len(M) : SolveTerm(X, Y, off, W, Yh, R, l, tt, f32) <= 2000000
-  /\ \A a \in 1..Len(M) : Abs(SumSeq([l \in 1..Len(M) |-> AdjE(M, a, l) * CVec(X, Y, tt)[l]])) \div Abs(Det(M)) <= 100
+  /\ \A a \in 1..Len(M) : Abs(SumSeq([l \in 1..Len(M) |-> AdjE(M, a, l) * CVec(X, Y, tt)[l]])) \div Abs(Det(M)) <= 200
 \* allowed deviation of a logged slope from the exact one (units of 10^-5): quantisation + floor + model
 CoefSlack(X, Y, off, W, Yh, R, a, tt, f32) ==
   2 + CQ * SumSeq([l \in 1..Len(W) |-> MulDiv(GinvQ(X, a, l), SolveTerm(X, Y, off, W, Yh, R, l, tt, f32), 1000) + 1])
